@@ -258,14 +258,14 @@ theorem ec_cancelUserAll (hA : A aEvent = true) (w : World) (h : R w) : R (cance
   unfold cancelUserAll
   exact foldl_inv R _ (fun w x hw => ec_evCancel hR hA w x hw) _ _ h
 
-theorem ec_guardSignal (hA : A aRes = true) (fuel : Nat) (w : World) (g : Nat) (h : R w) : R (guardSignal fuel w g) :=
+theorem ec_guardSignal (hA : A aRes = true ∧ A aCond = true) (fuel : Nat) (w : World) (g : Nat) (h : R w) : R (guardSignal fuel w g) :=
   guardSignal_inv R (fun w m h => ec_fail hR w m h) (fun _ _ _ h => hR.ev_only h rfl)
-    (fun _ _ _ _ h => hR.sched _ _ _ _ _ _ hA h) fuel w g h
+    (fun _ _ _ _ h => hR.sched _ _ _ _ _ _ hA.1 h) (fun _ _ _ _ h => hR.sched _ _ _ _ _ _ hA.2 h) fuel w g h
 
-theorem ec_signal (hA : A aRes = true) (w : World) (g : Nat) (h : R w) : R (signal w g) :=
+theorem ec_signal (hA : A aRes = true ∧ A aCond = true) (w : World) (g : Nat) (h : R w) : R (signal w g) :=
   ec_guardSignal hR hA 8 w g h
 
-theorem ec_guardWithdraw (hE : A aEvent = true) (hA : A aRes = true) (w : World) (g : Nat) (z : Pid) (h : R w) :
+theorem ec_guardWithdraw (hE : A aEvent = true) (hA : A aRes = true ∧ A aCond = true) (w : World) (g : Nat) (z : Pid) (h : R w) :
     R (guardWithdraw w g z) := by
   unfold guardWithdraw
   dsimp only
@@ -287,7 +287,7 @@ theorem ec_timersClear (hE : A aEvent = true) (w : World) (z : Pid) (h : R w) : 
   unfold timersClear; dsimp only
   exact foldl_inv R _ (fun w x hw => ec_evCancel hR hE w x hw) _ _ (hR.ev_only h rfl)
 
-theorem ec_cancelAwaiteds (hE : A aEvent = true) (hA : A aRes = true) (w : World) (z : Pid) (h : R w) :
+theorem ec_cancelAwaiteds (hE : A aEvent = true) (hA : A aRes = true ∧ A aCond = true) (w : World) (z : Pid) (h : R w) :
     R (cancelAwaiteds w z) := by
   unfold cancelAwaiteds; dsimp only
   apply ec_cancelAllFor hR hE
@@ -304,7 +304,7 @@ theorem ec_wakeWaiters (hA : A aProc = true) (w : World) (z : Pid) (sig : Int) (
   unfold wakeWaiters; dsimp only
   exact foldl_inv R _ (fun w q hw => hR.sched _ _ _ _ _ _ hA hw) _ _ (hR.ev_only h rfl)
 
-theorem ec_poolDropHolder (hA : A aRes = true) (w : World) (pl : Nat) (z : Pid) (h : R w) : R (poolDropHolder w pl z) := by
+theorem ec_poolDropHolder (hA : A aRes = true ∧ A aCond = true) (w : World) (pl : Nat) (z : Pid) (h : R w) : R (poolDropHolder w pl z) := by
   unfold poolDropHolder
   repeat' split
   all_goals first
@@ -312,7 +312,7 @@ theorem ec_poolDropHolder (hA : A aRes = true) (w : World) (pl : Nat) (z : Pid) 
     | exact ec_fail hR _ _ h
     | exact ec_signal hR hA _ _ (hR.ev_only h (by simp))
 
-theorem ec_dropResources (hA : A aRes = true) (w : World) (z : Pid) (h : R w) : R (dropResources w z) := by
+theorem ec_dropResources (hA : A aRes = true ∧ A aCond = true) (w : World) (z : Pid) (h : R w) : R (dropResources w z) := by
   rw [dropResources_eq]
   apply foldl_inv R
   · intro w a hw
@@ -327,7 +327,7 @@ theorem ec_dropResources (hA : A aRes = true) (w : World) (z : Pid) (h : R w) : 
 theorem ec_guardWaitEnter (w : World) (g : Nat) (z : Pid) (d : Demand) (h : R w) : R (guardWaitEnter w g z d) :=
   hR.ev_only h (by simp)
 
-theorem ec_guardWaitLeave (hE : A aEvent = true) (hA : A aRes = true) (w : World) (g : Nat) (z : Pid) (sig : Int)
+theorem ec_guardWaitLeave (hE : A aEvent = true) (hA : A aRes = true ∧ A aCond = true) (w : World) (g : Nat) (z : Pid) (sig : Int)
     (h : R w) : R (guardWaitLeave w g z sig) := by
   unfold guardWaitLeave; dsimp only
   refine hR.ev_only (w := if sig ≠ sigSuccess then guardWithdraw w g z else w) ?_ (by simp)
@@ -335,7 +335,7 @@ theorem ec_guardWaitLeave (hE : A aEvent = true) (hA : A aRes = true) (w : World
   · exact ec_guardWithdraw hR hE hA _ _ _ h
   · exact h
 
-theorem ec_poolMug (hI : A aIntr = true) (hA : A aRes = true) (fuel : Nat) (w : World) (z : Pid) (pl rem : Nat)
+theorem ec_poolMug (hI : A aIntr = true) (hA : A aRes = true ∧ A aCond = true) (fuel : Nat) (w : World) (z : Pid) (pl rem : Nat)
     (h : R w) : R (poolMug fuel w z pl rem).1 :=
   poolMug_inv R z (fun w m h => ec_fail hR w m h) (fun w ps h => hR.ev_only h rfl)
     (fun w z pl h => hR.ev_only h (by simp)) (fun w s t pri h => hR.sched _ _ _ _ _ _ hI h)
@@ -409,18 +409,18 @@ macro_rules
               | apply ec_cancelAllFor $hR (AllButProc.event $hA)
               | apply ec_cancelKindFor $hR (AllButProc.event $hA)
               | apply ec_cancelUserAll $hR (AllButProc.event $hA)
-              | apply ec_guardSignal $hR (AllButProc.res $hA)
-              | apply ec_signal $hR (AllButProc.res $hA)
-              | apply ec_guardWithdraw $hR (AllButProc.event $hA) (AllButProc.res $hA)
+              | apply ec_guardSignal $hR (And.intro (AllButProc.res $hA) (AllButProc.cond $hA))
+              | apply ec_signal $hR (And.intro (AllButProc.res $hA) (AllButProc.cond $hA))
+              | apply ec_guardWithdraw $hR (AllButProc.event $hA) (And.intro (AllButProc.res $hA) (AllButProc.cond $hA))
               | apply ec_timerAdd $hR (AllButProc.time $hA)
               | apply ec_timerCancel $hR (AllButProc.event $hA)
               | apply ec_timersClear $hR (AllButProc.event $hA)
-              | apply ec_cancelAwaiteds $hR (AllButProc.event $hA) (AllButProc.res $hA)
-              | apply ec_poolDropHolder $hR (AllButProc.res $hA)
-              | apply ec_dropResources $hR (AllButProc.res $hA)
+              | apply ec_cancelAwaiteds $hR (AllButProc.event $hA) (And.intro (AllButProc.res $hA) (AllButProc.cond $hA))
+              | apply ec_poolDropHolder $hR (And.intro (AllButProc.res $hA) (AllButProc.cond $hA))
+              | apply ec_dropResources $hR (And.intro (AllButProc.res $hA) (AllButProc.cond $hA))
               | apply ec_guardWaitEnter $hR
-              | apply ec_guardWaitLeave $hR (AllButProc.event $hA) (AllButProc.res $hA)
-              | apply ec_poolMug $hR (AllButProc.intr $hA) (AllButProc.res $hA)
+              | apply ec_guardWaitLeave $hR (AllButProc.event $hA) (And.intro (AllButProc.res $hA) (AllButProc.cond $hA))
+              | apply ec_poolMug $hR (AllButProc.intr $hA) (And.intro (AllButProc.res $hA) (AllButProc.cond $hA))
               | apply ec_emit $hR
               | apply ec_modProc $hR
               | apply ec_setGuardQ $hR
@@ -469,7 +469,7 @@ theorem ec_poolLoop (w : World) (p : Pid) (pl rem initially : Nat) (preempt : Bo
   · rename_i x hx
     dsimp only
     split
-    · exact ec_signal hR hA.res _ _ (hupd _ rem (hpre _ (x.inUse + rem) h))
+    · exact ec_signal hR ⟨hA.res, hA.cond⟩ _ _ (hupd _ rem (hpre _ (x.inUse + rem) h))
     · have h1 : R (if x.cap - x.inUse > 0 then
           (poolUpdateRecord (recordPool (setPoolInUse w pl (x.inUse + (x.cap - x.inUse))) pl) pl p (x.cap - x.inUse),
             rem - (x.cap - x.inUse)) else (w, rem)).1 := by
@@ -488,12 +488,13 @@ theorem ec_poolLoop (w : World) (p : Pid) (pl rem initially : Nat) (preempt : Bo
             (poolUpdateRecord (recordPool (setPoolInUse w pl (x.inUse + (x.cap - x.inUse))) pl) pl p (x.cap - x.inUse),
               rem - (x.cap - x.inUse)) else (w, rem)).2)).1 := by
         split
-        · exact ec_poolMug hR hA.intr hA.res _ _ _ _ _ h1
+        · exact ec_poolMug hR hA.intr ⟨hA.res, hA.cond⟩ _ _ _ _ _ h1
         · exact h1
       split
       · exact h2
       · exact ec_block hR _ _ _ (ec_guardWaitEnter hR _ _ _ _ h2)
 
+set_option maxHeartbeats 400000 in
 theorem ec_poolRollback (w : World) (p : Pid) (pl initially : Nat) (h : R w) : R (poolRollback w p pl initially) := by
   unfold poolRollback; dsimp only; ec_peel hR hA h 30
 
@@ -552,8 +553,8 @@ macro_rules
               | apply ec_pqGetLoop $hR $hA
               | apply ec_pqPutLoop $hR $hA
               | apply ec_condSignal $hR $hA
-              | apply ec_signal $hR (AllButProc.res $hA)
-              | apply ec_guardWaitLeave $hR (AllButProc.event $hA) (AllButProc.res $hA)
+              | apply ec_signal $hR (And.intro (AllButProc.res $hA) (AllButProc.cond $hA))
+              | apply ec_guardWaitLeave $hR (AllButProc.event $hA) (And.intro (AllButProc.res $hA) (AllButProc.cond $hA))
               | apply ec_cancelKindFor $hR (AllButProc.event $hA)
               | apply ec_cancelUserAll $hR (AllButProc.event $hA)
               | apply ec_recordPool $hR
